@@ -145,6 +145,12 @@ def check_history3(case):
 def check_sessions(case):
     prog = case["prog"]
     src, order = gp.render_program(prog)
+    if gp._has_opaque(prog) or len(src) % 3 == 0:
+        # imports of the names the tool may have to add in places that do not bind them at module level
+        src = src.replace("LOG = []\n", "LOG = []\n\n\ndef helper_with_local_import():\n"
+                          "    from inline_snapshot import HasRepr, external\n    return HasRepr, external\n\n\n"
+                          "if False:\n    from inline_snapshot import HasRepr\n", 1)
+        src = src.replace("from inline_snapshot import snapshot, HasRepr\n", "from inline_snapshot import snapshot\n", 1)
     d = drivers.make_project({"test_a.py": src})
     try:
         r1 = drivers.run_pytest(d, ["--inline-snapshot=create,fix,trim,update"])
